@@ -85,6 +85,7 @@ HARMLESS = [
     ('C13', 'sc3/seq/patterns/filterpatterns.py', "            for _ in bi.counter(self.repeats):\n                inevent[key] = True", "            repeats = self.repeats\n            for _ in bi.counter(repeats):\n                inevent[key] = True", 'local for the repeat count in Pn with a key'),
     ('C04', 'sc3/synth/synthdef.py', "        for p in params[skip_args:]:", "        used_params = params[skip_args:]\n        for p in used_params:", 'local for the parameters after the prepended ones'),
     ('C03', 'sc3/synth/ugen.py', "                l.append(getattr(gpp.ugen_param(item), selector)(*rest))", "                method = getattr(gpp.ugen_param(item), selector)\n                l.append(method(*rest))", 'local for the bound method in _multichannel_perform'),
+    ('C04', 'sc3/synth/synthdef.py', "                    arguments[cn.arg_num] = ctrl_ugens[i]\n                    self._set_control_names(ctrl_ugens[i], cn)", "                    out = ctrl_ugens[i]\n                    arguments[cn.arg_num] = out\n                    self._set_control_names(out, cn)", 'local for the control output in the group helper'),
 ]
 
 BREAKING = [
@@ -160,6 +161,10 @@ BREAKING = [
     ('C06', 'sc3/base/netaddr.py', "        for e in elements:\n            if isinstance(e[0], str):\n                elist.append", "        for e in elements[1:]:\n            if isinstance(e[0], str):\n                elist.append", 'first element dropped when a bundle is clumped'),
     ('C19', 'sc3/synth/envelope.py', "        for i in range(size):\n            contents.append(levels[i + 1])", "        for i in range(size - 1):\n            contents.append(levels[i + 1])", 'last segment missing from the encoded envelope'),
     ('C03', 'sc3/synth/ugen.py', "                l.append(type(self)(item)._multichannel_perform(selector, *rest))", "                l.append(type(self)(item)._multichannel_perform(selector, *args))", 'nested channels get the unexpanded arguments'),
+    ('C04', 'sc3/synth/synthdef.py', "        build_ita_controls(tr_cns, iou.TrigControl, 'kr')\n        build_ita_controls(ar_cns, iou.AudioControl, 'ar')", "        build_ita_controls(ar_cns, iou.AudioControl, 'ar')\n        build_ita_controls(tr_cns, iou.TrigControl, 'kr')", 'audio controls laid out before trigger controls'),
+    ('C04', 'sc3/synth/synthdef.py', "                index = self._control_index\n                ctrl_ugens = getattr(ctrl_class, method)(utl.flat(values))", "                ctrl_ugens = getattr(ctrl_class, method)(utl.flat(values))\n                index = self._control_index", 'slot counter read after the control unit advanced it'),
+    ('C04', 'sc3/synth/synthdef.py', "            if any(x != 0 for x in lags):", "            if not any(x != 0 for x in lags):", 'lagged controls created only when no lag is given'),
+    ('C04', 'sc3/synth/synthdef.py', "                    index += len(utl.as_list(cn.default_value))\n                    arguments[cn.arg_num] = ctrl_ugens[i]\n                    self._set_control_names(ctrl_ugens[i], cn)\n\n        build_ita", "                    index += 1\n                    arguments[cn.arg_num] = ctrl_ugens[i]\n                    self._set_control_names(ctrl_ugens[i], cn)\n\n        build_ita", 'array defaults counted as one slot'),
 ]
 
 
